@@ -102,11 +102,33 @@ def touch_cache():
         os.utime(cur, None)
 
 
+def run_root():
+    """Scratch root of this check run: /verif/.work/run-<id> (git-ignored, not /tmp).  The id is set once by vlib.main and
+    inherited by the shard processes, so two checks (or two seeds of one check) running at the same time never share files."""
+    rid = os.environ.get("VERIF_RUN_ID")
+    return os.path.join(OUT, ".work", "run-" + rid) if rid else os.path.join(OUT, ".work")
+
+
 def workdir(name):
-    """Scratch directory under /verif/.work (git-ignored, not /tmp)."""
-    p = os.path.join(OUT, ".work", name)
+    p = os.path.join(run_root(), name)
     os.makedirs(p, exist_ok=True)
     return p
+
+
+def clean_run_root():
+    """Remove this run's scratch root, and roots of runs that died more than 6 h ago."""
+    import shutil
+
+    if os.environ.get("VERIF_RUN_ID"):
+        shutil.rmtree(run_root(), ignore_errors=True)
+    base = os.path.join(OUT, ".work")
+    try:
+        for d in os.listdir(base):
+            q = os.path.join(base, d)
+            if d.startswith("run-") and os.path.isdir(q) and time.time() - os.path.getmtime(q) > 6 * 3600:
+                shutil.rmtree(q, ignore_errors=True)
+    except OSError:
+        pass
 
 
 def seed():
